@@ -79,6 +79,8 @@ pub struct Sched {
     done_cv: Condvar,
     pub fine: bool,
     pub sites: u16,
+    /// free-running mode (see Strategy::Free)
+    pub free: bool,
 }
 
 pub const STEP_CAP: u64 = 20_000;
@@ -107,6 +109,11 @@ impl Sched {
         for s in g.states.iter_mut() {
             if *s == ThState::Held {
                 *s = ThState::Runnable;
+            }
+        }
+        if self.free {
+            for cv in &self.cvs {
+                cv.notify_all();
             }
         }
     }
@@ -153,8 +160,9 @@ impl Sched {
             }),
             cvs: (0..n_threads).map(|_| Condvar::new()).collect(),
             done_cv: Condvar::new(),
-            fine: spec.fine,
+            fine: spec.fine && spec.strategy != Strategy::Free,
             sites: spec.sites,
+            free: spec.strategy == Strategy::Free,
         }
     }
 
@@ -208,7 +216,7 @@ impl Sched {
                     }
                     best
                 }
-                Strategy::RoundRobin => 0,
+                Strategy::RoundRobin | Strategy::Free => 0,
             }
         };
         inner.choices.push(idx as u8);
@@ -218,6 +226,13 @@ impl Sched {
     /// Called by a simulated thread before doing anything: wait for the first turn.
     pub fn thread_start(&self, me: usize) {
         let mut g = self.lock();
+        if self.free {
+            // only the prelude is honoured: wait until thread 0 has released the others
+            while g.states[me] == ThState::Held {
+                g = self.cvs[me].wait(g).unwrap_or_else(|p| p.into_inner());
+            }
+            return;
+        }
         while g.current != Some(me) {
             g = self.cvs[me].wait(g).unwrap_or_else(|p| p.into_inner());
         }
@@ -225,6 +240,9 @@ impl Sched {
 
     /// Called by the harness after all threads are spawned: give the baton to `first`.
     pub fn start(&self, first: usize) {
+        if self.free {
+            return;
+        }
         let mut g = self.lock();
         g.current = Some(first);
         self.cvs[first].notify_one();
@@ -232,6 +250,10 @@ impl Sched {
 
     /// A scheduling point. `site` is only recorded.
     pub fn yield_now(&self, me: usize, site: u8) {
+        if self.free {
+            std::thread::yield_now();
+            return;
+        }
         let mut g = self.lock();
         debug_assert_eq!(g.current, Some(me));
         g.steps += 1;
@@ -317,6 +339,12 @@ impl Sched {
         if !pending(&g) {
             return;
         }
+        if self.free {
+            while pending(&g) {
+                g = self.cvs[me].wait(g).unwrap_or_else(|p| p.into_inner());
+            }
+            return;
+        }
         g.states[me] = ThState::Waiting(mask);
         g.steps += 1;
         match Self::choose(&mut g, None) {
@@ -343,6 +371,23 @@ impl Sched {
     pub fn thread_done(&self, me: usize) {
         let mut g = self.lock();
         g.states[me] = ThState::Done;
+        if self.free {
+            if me == 0 {
+                for s in g.states.iter_mut() {
+                    if *s == ThState::Held {
+                        *s = ThState::Runnable;
+                    }
+                }
+            }
+            if g.states.iter().all(|s| *s == ThState::Done) {
+                g.all_done = true;
+            }
+            for cv in &self.cvs {
+                cv.notify_all();
+            }
+            self.done_cv.notify_all();
+            return;
+        }
         if me == 0 {
             for s in g.states.iter_mut() {
                 if *s == ThState::Held {
